@@ -1,4 +1,5 @@
 import OV.Model.Index
+import OV.Lemmas.Index
 /-!
 # C11 — tensor indexing and slicing mean what they mean in NumPy
 
@@ -31,5 +32,194 @@ theorem slice_axis_conv_full_refuted :
   intro h
   have := h 3 (some (-4)) none (-1) (by decide) (by decide) (by decide)
   revert this; decide
+
+/-- **Per-axis heart, eager mode.**  Same statement for the bounds `Tensor.__getitem__` computes
+(`s.start or 0`, `shape[axis]`; `shape-1`, `-(shape+1)` for a negative step). -/
+theorem slice_axis_eager_eq_py_partial (d : Int) (lo hi : Option Int) (step : Int)
+    (hd0 : 0 < d) (hs : step ≠ 0)
+    (hD22 : step < 0 → ∀ x, lo = some x → -d ≤ x) :
+    onnxNorm d (eagerBounds d lo hi step).1 (eagerBounds d lo hi step).2 step = pyAdjust d lo hi step := by
+  unfold onnxNorm eagerBounds pyAdjust at *
+  rcases lo with _ | x <;> rcases hi with _ | y <;> simp only [Option.getD] <;>
+    by_cases h1 : step > 0 <;> by_cases h2 : step < 0 <;>
+    simp only [h1, h2, if_true, if_false] <;>
+    (try omega)
+  all_goals (try (have hxx := hD22 h2 _ rfl))
+  all_goals (refine Prod.ext ?_ ?_ <;> simp only [Int.min_def, Int.max_def] <;> (repeat' split) <;> omega)
+
+/-- Eager mode has the same defect: `Tensor(A)[-4::-1]`, `d = 3`. -/
+theorem slice_axis_eager_full_refuted :
+    ¬ (∀ (d : Int) (lo hi : Option Int) (step : Int), 0 < d → step ≠ 0 →
+        onnxNorm d (eagerBounds d lo hi step).1 (eagerBounds d lo hi step).2 step = pyAdjust d lo hi step) := by
+  intro h
+  have := h 3 (some (-4)) none (-1) (by decide) (by decide)
+  revert this; decide
+
+/-- **List level, converter**: for *every* list (every length below the int64 sentinel, the empty
+list included) the ONNX `Slice` of the converter's bounds selects exactly the elements Python's
+`l[lo:hi:step]` selects. -/
+theorem slice_list_conv_eq_numpy_partial {α} (l : List α) (lo hi : Option Int) (step : Int)
+    (hlen : (l.length : Int) < maxint) (hs : step ≠ 0)
+    (hD22 : step < 0 → ∀ x, lo = some x → -(l.length : Int) ≤ x) :
+    onnxSliceList l (convBounds lo hi step).1 (convBounds lo hi step).2 step = pySliceList l lo hi step := by
+  unfold onnxSliceList pySliceList
+  rcases l with _ | ⟨a, t⟩
+  · simp only [enumerate_nil]
+  · have hpos : (0 : Int) < ((a :: t).length : Int) := by simp only [List.length_cons]; omega
+    rw [slice_axis_conv_eq_py_partial _ lo hi step hpos hlen hs hD22]
+
+/-- **List level, eager mode.** -/
+theorem slice_list_eager_eq_numpy_partial {α} (l : List α) (lo hi : Option Int) (step : Int)
+    (hs : step ≠ 0)
+    (hD22 : step < 0 → ∀ x, lo = some x → -(l.length : Int) ≤ x) :
+    onnxSliceList l (eagerBounds l.length lo hi step).1 (eagerBounds l.length lo hi step).2 step
+      = pySliceList l lo hi step := by
+  unfold onnxSliceList pySliceList
+  rcases l with _ | ⟨a, t⟩
+  · simp only [enumerate_nil]
+  · have hpos : (0 : Int) < ((a :: t).length : Int) := by simp only [List.length_cons]; omega
+    rw [slice_axis_eager_eq_py_partial _ lo hi step hpos hs hD22]
+
+example : onnxSliceList [10, 20, 30, 40, 50] (convBounds none (some (-3)) (-2)).1
+    (convBounds none (some (-3)) (-2)).2 (-2) = [50] ∧ pySliceList [10, 20, 30, 40, 50] none (some (-3)) (-2) = [50] := by
+  decide
+
+/-- **A scalar index as `i:i+1:1` + Squeeze** (both front ends do this when the Slice path is
+taken).  For every list and every integer `i` the one-step slice is the singleton `[l[i]]` when
+`0 ≤ i < n` or `-n ≤ i ≤ -2`, and is *empty* otherwise — in particular for `i = -1` — so the
+following `Squeeze` fails: an error, never a different element. -/
+theorem scalar_as_slice {α} (l : List α) (i : Int) :
+    onnxSliceList l i (i + 1) 1 =
+      (match (if i = -1 then none else normIdx l.length i) with
+       | some k => (l[k]?).toList
+       | none => []) := by
+  unfold onnxSliceList onnxNorm normIdx
+  have h1 : ¬ ((1 : Int) < 0) := by decide
+  simp only [h1, if_false]
+  by_cases hm1 : i = -1
+  · subst hm1
+    simp only [if_true]
+    rw [sliceLen_empty_pos _ _ _ (by decide) (by simp only [Int.min_def, Int.max_def]; (repeat' split) <;> omega)]
+    rfl
+  · simp only [hm1, if_false]
+    by_cases hin : 0 ≤ i ∧ i < (l.length : Int)
+    · have e1 : max 0 (min (if i < 0 then i + ↑l.length else i) (↑l.length : Int)) = i := by
+        simp only [Int.min_def, Int.max_def]; (repeat' split) <;> omega
+      have e2 : max 0 (min (if i + 1 < 0 then i + 1 + ↑l.length else i + 1) (↑l.length : Int)) = i + 1 := by
+        simp only [Int.min_def, Int.max_def]; (repeat' split) <;> omega
+      rw [e1, e2, sliceLen_one, enumerate_one]
+      simp only [hin, and_self, if_true]
+    · simp only [hin, if_false]
+      by_cases hneg : i < 0 ∧ -(l.length : Int) ≤ i
+      · have e1 : max 0 (min (if i < 0 then i + ↑l.length else i) (↑l.length : Int)) = i + l.length := by
+          simp only [Int.min_def, Int.max_def]; (repeat' split) <;> omega
+        have e2 : max 0 (min (if i + 1 < 0 then i + 1 + ↑l.length else i + 1) (↑l.length : Int))
+            = i + l.length + 1 := by
+          simp only [Int.min_def, Int.max_def]; (repeat' split) <;> omega
+        have h0 : (0 : Int) ≤ i + l.length := by omega
+        rw [e1, e2, sliceLen_one, enumerate_one]
+        simp only [hneg, and_self, if_true, h0]
+      · simp only [hneg, if_false]
+        rw [sliceLen_empty_pos _ _ _ (by decide)
+          (by simp only [Int.min_def, Int.max_def]; (repeat' split) <;> omega)]
+        rfl
+
+example : onnxSliceList [10, 20, 30] (-2) (-1) 1 = [20] ∧ onnxSliceList [10, 20, 30] (-1) 0 1 = [] := by decide
+
+/-- **Axis level, Slice path**: whenever the converter's Slice(+Squeeze) treatment of a constant
+component yields a result on an axis (of any extent below the int64 sentinel), NumPy yields the
+same result on that axis — given the D22 hypothesis for negative steps. -/
+theorem graph_axis_refines_numpy_partial (c : Comp) (srcs : List Nat) (a : AxisMap)
+    (hlen : (srcs.length : Int) < maxint)
+    (hD22 : ∀ lo hi st, c = .slice lo hi st → (st.val?).getD 1 < 0 →
+              ∀ x, lo.val? = some x → -(srcs.length : Int) ≤ x)
+    (h : graphAxisSlicePath c srcs = .ok a) : numpyAxis c srcs = .ok a := by
+  cases c with
+  | full => simpa [graphAxisSlicePath, numpyAxis] using h
+  | tScalar v => simp [graphAxisSlicePath] at h
+  | tVec vs => simp [graphAxisSlicePath] at h
+  | int i =>
+    simp only [graphAxisSlicePath, scalar_as_slice] at h
+    simp only [numpyAxis]
+    by_cases hm1 : i = -1
+    · simp [hm1] at h
+    · simp only [hm1, if_false] at h
+      cases hn : normIdx srcs.length i with
+      | none => simp [hn] at h
+      | some k =>
+        simp only [hn] at h ⊢
+        cases hk : srcs[k]? with
+        | none => simp [hk] at h
+        | some s => simpa [hk] using h
+  | slice lo hi st =>
+    have hstep : ∀ step, (st.val?).getD 1 = step → step ≠ 0 →
+        onnxSliceList srcs (convBounds lo.val? hi.val? step).1 (convBounds lo.val? hi.val? step).2 step
+          = pySliceList srcs lo.val? hi.val? step := by
+      intro step hs hne
+      exact slice_list_conv_eq_numpy_partial srcs _ _ step hlen hne
+        (fun hneg x hx => hD22 lo hi st rfl (by rw [hs]; exact hneg) x hx)
+    cases st with
+    | dyn v => simp [graphAxisSlicePath] at h
+    | none =>
+      have e : (Bnd.none).val? = none := rfl
+      simp only [graphAxisSlicePath, numpyAxis, e, Option.getD] at h ⊢
+      rw [hstep 1 rfl (by decide)] at h
+      exact h
+    | const v =>
+      have e : (Bnd.const v).val? = some v := rfl
+      simp only [graphAxisSlicePath, numpyAxis, e, Option.getD] at h ⊢
+      by_cases hv : v = 0
+      · simp [hv] at h
+      · have hb : (v == 0) = false := by simpa using hv
+        simp only [hb] at h ⊢
+        rw [hstep v rfl hv] at h
+        exact h
+
+example : graphAxisSlicePath (.slice (.const 1) .none (.const 2)) [0, 1, 2, 3, 4] = .ok (.pick [1, 3]) := by decide
+example : graphAxisSlicePath (.int (-2)) [0, 1, 2] = .ok (.drop 1) ∧
+    graphAxisSlicePath (.int (-1)) [0, 1, 2] = .error .indexError := by decide
+
+/-- Whole expressions, full statement: "if the translated graph returns a tensor, it is NumPy's".
+**Refuted** on the model of the unchanged converter by `A[i, 0]` (`i` a rank-0 tensor holding 1,
+`A : 2×3×4`): the plan gathers axis 0 (rank drops) and then gathers axis **1** of the reduced
+tensor — finding D7, replayed on the real converter by the check. -/
+theorem graph_index_full_refuted :
+    ¬ (∀ comps shape r, graphIndex comps shape = .ok r → numpyIndex comps shape = .ok r) := by
+  intro h
+  have := h [.tScalar 1, .int 0] [2, 3, 4] [.drop 1, .pick [0, 1, 2], .drop 0] (by decide)
+  revert this; decide
+
+/-- The same expression in eager mode is right (both scalars go through Slice + squeeze), so the two
+front ends disagree with each other on it. -/
+theorem eager_index_witness_ok :
+    eagerIndex [.tScalar 1, .int 0] [2, 3, 4] = numpyIndex [.tScalar 1, .int 0] [2, 3, 4] := by decide
+
+/-- D22 at the level of whole expressions: `A[-4::-1]` on a length-3 tensor. -/
+theorem graph_index_d22_witness :
+    graphIndex [.slice (.const (-4)) .none (.const (-1))] [3] = .ok [.pick [0]] ∧
+    eagerIndex [.slice (.const (-4)) .none (.const (-1))] [3] = .ok [.pick [0]] ∧
+    numpyIndex [.slice (.const (-4)) .none (.const (-1))] [3] = .ok [.pick []] := by decide
+
+/-- Refusal: a slice whose step is tensor-valued and whose start is omitted (`A[:hi:k]`, `A[::k]`). -/
+theorem dyn_step_omitted_start_refused (hi : Bnd) (s : Int) :
+    planGraph [.slice .none hi (.dyn s)] = .error .refused := by
+  cases hi <;> rfl
+
+/-- Refusal: likewise with the stop omitted (`A[lo::k]`). -/
+theorem dyn_step_omitted_stop_refused (lo : Bnd) (s : Int) :
+    planGraph [.slice lo .none (.dyn s)] = .error .refused := by
+  cases lo <;> rfl
+
+/-- Refusal: an index of only full slices (`A[:]`, `A[:, :]`, …) — see the model comment. -/
+theorem all_full_refused (n : Nat) : planGraph (List.replicate n .full) = .error .refused := by
+  have h : ∀ (k : Nat) (f : Comp × Nat → Bool), (∀ m, f (.full, m) = false) →
+      ((List.replicate n Comp.full).zipIdx k).filter f = [] := by
+    intro k f hf
+    induction n generalizing k with
+    | zero => rfl
+    | succ n ih => simp [List.replicate_succ, List.zipIdx_cons, hf, ih]
+  simp only [planGraph]
+  rw [h 0 _ (by intro m; rfl), h 0 _ (by intro m; rfl), h 0 _ (by intro m; rfl)]
+  rfl
 
 end OV.Props.C11
